@@ -192,6 +192,8 @@ def run_case(case):
         for _try in range(10):
             try:
                 kw = dict(small=rng.random() < 0.7, typable=rng.random() < 0.3, families=["gauss", "uniform", "poisson", "schulz_zimm"], mean_units=rng.choice([1.5, 2.5, 4]))
+                if k == 1 and rng.random() < 0.7:
+                    kw["arch"] = "deadend"  # a valid string whose generation dead-ends for some streams: a failed generation must leave no trace either
                 subj = W.Subject(case["seed"] * 977 + k * 13 + _try, **kw)
                 gbigsmiles.Molecule(subj.text)
                 texts.append(subj.text)
